@@ -129,3 +129,21 @@ Example C09_hidden_child_through_random_reference :
   = Ok [("K", [("id", OInt 1); ("k", OInt 8)]); ("P", [("id", OInt 1)]);
         ("D", [("id", OInt 1); ("a", OInt 8); ("c", OInt 17)])].
 Proof. vm_compute. reflexivity. Qed.
+
+(* the premise "the lookup finds the row" holds in every state a fresh run reaches: ids are per table
+   and never handed out twice (C01), so the row with that table and id is that row *)
+Theorem C09_fresh_run_lookup_finds_the_row :
+  forall r k s c, run_fresh r k = Ok s -> In c (heap s) ->
+    find_cell (c_table c) (c_id c) (heap s) = Some c.
+Proof. exact fresh_run_lookup_finds_the_row. Qed.
+Print Assumptions C09_fresh_run_lookup_finds_the_row.
+
+Theorem C09_fresh_run_field_through_random_reference :
+  forall r k s c f w,
+    run_fresh r k = Ok s -> In c (heap s) ->
+    in_history (hist (rnd s)) (c_table c) (c_id c) = true ->
+    py_own_attr f || String.eqb f "sql_tablename" || String.eqb f "_data" = false ->
+    row_attr c f = Some w -> (forall n, w <> VSlot n) ->
+    hist_attr (hist (rnd s)) (heap s) (c_table c) (c_id c) f = Ok w.
+Proof. exact fresh_run_field_through_history. Qed.
+Print Assumptions C09_fresh_run_field_through_random_reference.
